@@ -5,6 +5,7 @@ import Drv.C14
 import Drv.C12
 import Drv.C18
 import Drv.C20
+import Drv.C13
 /-! `drv <model>`: executable models behind a one-line-in, one-line-out protocol. -/
 def main (args : List String) : IO UInt32 := do
   match args with
@@ -15,4 +16,5 @@ def main (args : List String) : IO UInt32 := do
   | ["c12"] => Drv.loop Drv.C12.step Drv.C12.init; return 0
   | ["c18"] => Drv.loop Drv.C18.step {}; return 0
   | ["c20"] => Drv.loop Drv.C20.step Drv.C20.St.none; return 0
+  | ["c13"] => Drv.pureLoop Drv.C13.step; return 0
   | _ => IO.eprintln "usage: drv <model>"; return 2
